@@ -407,7 +407,10 @@ struct RegistryEngine : Engine
 			Sys inj(2);
 			std::string kr = r.key(), ki = inj.key();
 			kr[1] = '2'; // variant digit
-			if (kr != ki) ctx.R.selfcheck_failed.push_back("injected high-port start state differs from the real one: " + kr + " vs " + ki);
+			// only what the bind / lookup code reads must agree (registries + counter); the per-socket fields of the socket that went
+			// through the 63 533 cycles are the library's business and are judged by the exploration itself
+			auto reg_part = [](std::string const& k) { size_t p = 0; for (int i = 0; i < 3 && p != std::string::npos; ++i) p = k.find('|', p + 1); return k.substr(0, p); };
+			if (reg_part(kr) != reg_part(ki)) { Case c; c.set("variant", 2).set("hist", ""); add_violation(ctx, "registry_after_cycles", c, "after 63533 open/bind(:0)/close cycles on one UDP socket the registries / ephemeral counter are {" + reg_part(kr) + "}, expected {" + reg_part(ki) + "}", "cycles"); }
 		}
 	}
 	int replay(Case const& c, Args const& a) override
